@@ -94,6 +94,24 @@ func (h *hctx) report(r *runner, im *Image, f Fault, mode string, start *Snap, m
 		sig = "record-type-not-checksummed/" + tr
 		v.Msg = "[" + v.Sig + "] " + v.Msg
 	}
+	if f.Kind == "bitflip" && strings.HasPrefix(f.What, "len") {
+		// a length field that becomes zero reads as "end of segment": the reader
+		// moves on to the next segment file without error
+		if fl := im.file(f.File); fl != nil {
+			base := f.Off &^ 7
+			var l uint64
+			for i := int64(0); i < 8; i++ {
+				b := fl.at(base + i)
+				if base+i == f.Off {
+					b ^= 1 << f.Bit
+				}
+				l |= uint64(b) << (8 * uint(i))
+			}
+			if l == 0 {
+				sig = "zeroed-length-field-ends-segment/" + strings.TrimPrefix(f.What[strings.Index(f.What, ":")+1:], "") + "/" + v.Sig
+			}
+		}
+	}
 	scen := "history"
 	if h.scenario != "" {
 		scen = h.scenario
@@ -393,6 +411,28 @@ func (h *hctx) planTears(rg region, mode string) tearPlan {
 	for _, x := range sorted {
 		tp.faults = append(tp.faults, Fault{Kind: "trunc-eof", File: rg.File, Off: x, Drop: rg.Drop})
 	}
+	if rg.Drop && rg.Opt {
+		// With optimizedFsync the cut does not fdatasync the old segment: after a
+		// power loss its tail can be missing although the next segment exists.
+		// The crc chained across the segments must make that loud.
+		ks := map[int64]bool{}
+		for _, f := range fr {
+			if f.Off >= lo {
+				ks[f.Off] = true
+			}
+		}
+		for _, b := range bounds {
+			ks[b] = true
+		}
+		var kv []int64
+		for x := range ks {
+			kv = append(kv, x)
+		}
+		sort.Slice(kv, func(i, j int) bool { return kv[i] < kv[j] })
+		for _, x := range pickSome(rng, kv, 12) {
+			tp.faults = append(tp.faults, Fault{Kind: "zero-earlier-segment", File: rg.File, Off: x, Size: rg.Size})
+		}
+	}
 	// zero-fill (the file keeps its preallocated length) from sector boundaries
 	// (a first sector that also holds synced bytes is covered by the subset patterns)
 	for _, b := range pickSome(rng, bounds, bd.zeroSectors) {
@@ -517,8 +557,8 @@ func prepare(r *runner, hid int, mode string, depth int, label, scenario string,
 
 // tearMode decides how densely the unsynced region of one image is enumerated.
 // thorough tier: every offset (regions up to the cap) for every call of every
-// eighth history and for 5% of the calls of the others, the quick rule (every
-// offset of the last two records + 64 sampled) for another 25%, structural
+// sixteenth history and for 3% of the calls of the others, the quick rule (every
+// offset of the last two records + 64 sampled) for another 12%, structural
 // offsets + a sample elsewhere. quick tier: the quick rule for a quarter of
 // the calls and for every call that cut a segment or wrote a snapshot marker,
 // structural offsets + a sample elsewhere.
@@ -527,9 +567,9 @@ func tearMode(mode string, hid int, im *Image, rng *rand.Rand) string {
 	switch mode {
 	case "thorough":
 		switch {
-		case hid%8 == 0 || u < 5:
+		case hid%16 == 0 || u < 3:
 			return "thorough"
-		case u < 30 || im.cut || im.Op == "snap":
+		case u < 15 || im.cut || im.Op == "snap":
 			return "quick"
 		}
 		return "light"
